@@ -10,6 +10,6 @@ def jobs():
         j.append(X("c17_collapse", {"period": p, "groups": 2}, "CollapseTimeframe period %d (beyond PeriodType), 2 periods: emission timing, first open, last close, summed volume" % p, cost=5 + p / 100, encodes=encc))
     encr = ["src/methods/renko.rs: Renko::{new,next}, RenkoOutput::{next,len,is_rising,is_falling}"]
     j.append(X("c17_renko", {"t": 2, "b_den": 4, "p0": 128, "maxmul": 3}, "Renko brick 1/4 from price 128, 2 symbolic prices within (128/3, 128*3) (multi-brick jumps, reversals, exact boundaries): bricks iff boundary reached, direction, contiguity with the last brick, equal relative size, maximal count, total volume", cost=40, encodes=encr))
-    j.append(X("c17_renko", {"t": 3, "b_den": 4, "p0": 128, "maxmul": 3}, "Renko brick 1/4, 3 symbolic prices (fall of several bricks followed by a reversal is in scope)", cost=400, timeout=3000, encodes=encr))
+    j.append(X("c17_renko", {"t": 3, "b_den": 4, "p0": 128, "maxmul": 3}, "Renko brick 1/4, 3 symbolic prices (deepening)", tier="t", core=False, cost=600, timeout=4000, encodes=encr))
     j.append(X("c17_renko", {"t": 3, "b_den": 10, "p0": 100, "maxmul": 2}, "Renko brick 1/10 from 100, 3 symbolic prices within (50, 200)", tier="t", core=False, cost=1500, timeout=6000, encodes=encr))
     return j
